@@ -116,9 +116,14 @@ def py_specs(ctx, rand_quick=80, rand_thorough=2400, per_shard_seq=400, nrand_qu
              wrap_every=4, tails=True):
     """Shard specs: exhaustive sequences (some shards with wrappers) + random deep schemas."""
     specs = []
+    k = 0
     for i, ch in enumerate(seq_workload(ctx, per_shard_seq, tails=tails)):
-        specs.append({'kind': 'seq', 'seqs': ch, 'wrap': (i % wrap_every == 0) or not ctx.quick,
-                      'seed': ctx.seed * 1000 + i, 'nrand': ctx.pick(nrand_quick, nrand_thorough)})
+        wrap = (i % wrap_every == 0) or not ctx.quick
+        # wrapped structs come with ~7 wrapper types each: split those chunks to keep shards balanced
+        for sub in (chunks(ch, max(1, per_shard_seq // 6)) if wrap else [ch]):
+            specs.append({'kind': 'seq', 'seqs': sub, 'wrap': wrap,
+                          'seed': ctx.seed * 1000 + k, 'nrand': ctx.pick(nrand_quick, nrand_thorough)})
+            k += 1
     nr = ctx.pick(rand_quick, rand_thorough)
     seeds = [ctx.seed * 100000 + k for k in range(nr)]
     for i, ch in enumerate(chunks(seeds, max(1, nr // 16))):
